@@ -215,6 +215,40 @@ func init() {
 		}
 		return IfaceStruct{Name: l.Elems[0].S, Any: []int{int(l.Elems[1].I), int(l.Elems[2].I)}}
 	}
+	// composite leaves whose members are POINTERS to primitives (or nil pointers), held in interface-typed or
+	// pointer-typed slots
+	extraLeaf["slice-any-ptr"] = func(l *LeafDesc) any {
+		out := make([]any, len(l.Elems))
+		for i, e := range l.Elems {
+			v := int(e.I)
+			if i%2 == 0 {
+				out[i] = &v
+			} else {
+				p := &v
+				out[i] = &p
+			}
+		}
+		return out
+	}
+	extraLeaf["array2-any-ptr"] = func(l *LeafDesc) any {
+		a, b := int(l.Elems[0].I), l.Elems[1].S
+		return [2]any{&a, &b}
+	}
+	extraLeaf["struct-nilptr"] = func(l *LeafDesc) any {
+		return PubStruct{A: int(l.Elems[0].I), B: l.Elems[1].S, P: nil, F: 1.5}
+	}
+	extraLeaf["map-str-ptr"] = func(l *LeafDesc) any {
+		m := map[string]*int{}
+		for i, k := range l.Keys {
+			if l.Elems[i].Tag == "nilptr" {
+				m[k] = nil
+				continue
+			}
+			v := int(l.Elems[i].I)
+			m[k] = &v
+		}
+		return m
+	}
 	extraLeaf["stringer-struct"] = func(l *LeafDesc) any {
 		v := StrStruct{Name: l.Elems[0].S, Level: int(l.Elems[1].I), Tags: []string{l.Elems[2].S, l.Elems[3].S}}
 		if l.N == 1 {
@@ -318,7 +352,17 @@ func c05Leaf(r *core.Rng) *LeafDesc {
 	case 14:
 		return &LeafDesc{Tag: "emb-struct", Elems: []*LeafDesc{strLeaf(r), strLeaf(r), strLeaf(r)}}
 	case 16:
-		switch r.Intn(4) {
+		switch r.Intn(8) {
+		case 4:
+			return &LeafDesc{Tag: "slice-any-ptr", Elems: many(intLeaf, n)}
+		case 5:
+			return &LeafDesc{Tag: "array2-any-ptr", Elems: []*LeafDesc{intLeaf(r), strLeaf(r)}}
+		case 6:
+			return &LeafDesc{Tag: "struct-nilptr", Elems: []*LeafDesc{intLeaf(r), strLeaf(r)}}
+		case 7:
+			es := many(intLeaf, n)
+			es[r.Intn(len(es))] = &LeafDesc{Tag: "nilptr"}
+			return &LeafDesc{Tag: "map-str-ptr", Keys: keys(n), Elems: es}
 		case 3:
 			return &LeafDesc{Tag: "stringer-struct", N: r.Intn(2), Elems: []*LeafDesc{strLeaf(r), intLeaf(r), strLeaf(r), strLeaf(r)}}
 		case 0:
